@@ -417,6 +417,10 @@ class Hooks:
         """after a summarised loop: head_syms maps loop-modified names to their head symbols"""
         pass
 
+    def on_yield(self, eng, fr, node, value, st):
+        """a generator yields `value`; may return a replacement state (e.g. with a tag)"""
+        return None
+
     def on_loop_head(self, eng, fr, node, head):
         """may adjust the havocked head state (e.g. reset per-iteration tags)"""
         return head
@@ -1092,7 +1096,11 @@ class Engine:
     def e_Yield(self, fr, e, s):
         if e.value is None:
             return [(s, Unk(self.fresh("sent")))]
-        return [(s2, Unk(self.fresh("sent"))) for s2, _ in self.eval(fr, e.value, s)]
+        out = []
+        for s2, v in self.eval(fr, e.value, s):
+            r = self.hooks.on_yield(self, fr, e, v, s2)
+            out.append((r if r is not None else s2, Unk(self.fresh("sent"))))
+        return out
 
     def e_YieldFrom(self, fr, e, s):
         return [(s2, Unk(self.fresh("sent"))) for s2, _ in self.eval(fr, e.value, s)]
@@ -1890,6 +1898,12 @@ class Engine:
             term = ("bmeth", attr, vkey(base), tuple(vkey(a) for a in args), 0, 0)
             self.origin[term] = ("bmeth", attr, base, list(args))
             return [(s, Str((("sym", term),)))]
+        if attr == "count" and len(args) == 1 and isinstance(base, (Unk, Str)) and isinstance(args[0], Con):
+            t = ("count", vkey(base), vkey(args[0]))
+            self.origin[t] = ("count", base, args[0])
+            s2 = s.copy()
+            s2.add_lin(ge(Lin.var(t), 0))
+            return [(s2, Num(Lin.var(t)))]
         if attr in ("find", "rfind", "index", "count"):
             t = self.fresh(attr)
             s2 = s.copy()
